@@ -103,6 +103,33 @@ pub fn prop_dec9(bytes: &[u8]) -> String {
             }
         }
     }
+    // a specialised result converted into a Beatmap (`Beatmap::from(x)`, public API) carries exactly the groups its decoder
+    // reads, equal to the full decoder's, and the defaults everywhere else
+    if !full.starts_with("err") {
+        let default_dump = dump_beatmap(&Beatmap::default());
+        macro_rules! conv {
+            ($t:ty, $name:expr, $tags:expr) => {
+                if let Ok(x) = rosu_map::from_bytes::<$t>(bytes) {
+                    let d = format!("ok {}", dump_beatmap(&Beatmap::from(x)));
+                    for tag in ["G", "E", "M", "D", "V", "T", "C", "H"] {
+                        let want = if $tags.contains(&tag) { group(full, tag) } else { group(&default_dump, tag) };
+                        if group(&d, tag) != want {
+                            return format!("FAIL Beatmap::from({}) group {tag}: [{}] expected [{}]", $name,
+                                group(&d, tag).map_or("", |x| &x[..x.len().min(200)]), want.map_or("", |x| &x[..x.len().min(200)]));
+                        }
+                    }
+                }
+            };
+        }
+        conv!(General, "General", ["G"]);
+        conv!(Editor, "Editor", ["E"]);
+        conv!(Metadata, "Metadata", ["M"]);
+        conv!(Difficulty, "Difficulty", ["D"]);
+        conv!(Events, "Events", ["V"]);
+        conv!(Colors, "Colors", ["C"]);
+        conv!(TimingPoints, "TimingPoints", ["G", "T"]);
+        conv!(HitObjects, "HitObjects", ["G", "D", "V", "T", "H"]);
+    }
     // the full decoder must be the same decoder through every public entry point (`str::parse::<Beatmap>`, `Beatmap::from_bytes`,
     // `Beatmap::decode`, `from_str`, `from_path`): the specialised decoders are compared with ONE of them above (seed C07-l)
     if let Some(d) = crate::reader::entry_points(bytes) {
@@ -297,6 +324,33 @@ pub fn prop_deccurves(bytes: &[u8]) -> String {
     format!("OK sliders={n}")
 }
 
+/// `T::default()` is what decoding an empty input gives, for every decoder type ("unknown keys or invalid values leave the
+/// field untouched" speaks of these values), compared through `Debug`
+pub fn prop_defaults() -> String {
+    macro_rules! same {
+        ($t:ty) => {
+            match rosu_map::from_bytes::<$t>(b"") {
+                Ok(x) => {
+                    if format!("{x:?}") != format!("{:?}", <$t>::default()) {
+                        return format!("FAIL {}::default() differs from decoding an empty input", stringify!($t));
+                    }
+                }
+                Err(_) => return format!("FAIL {} fails on an empty input", stringify!($t)),
+            }
+        };
+    }
+    same!(Beatmap);
+    same!(General);
+    same!(Editor);
+    same!(Metadata);
+    same!(Difficulty);
+    same!(Events);
+    same!(Colors);
+    same!(TimingPoints);
+    same!(HitObjects);
+    "OK".to_owned()
+}
+
 pub fn enc(bytes: &[u8]) -> String {
     match rosu_map::from_bytes::<Beatmap>(bytes) {
         Ok(mut m) => match m.encode_to_string() {
@@ -359,6 +413,7 @@ pub fn dispatch_prop(toks: &[&str]) -> Option<String> {
         ["total", hex] => Some(prop_total(&unhex(hex))),
         ["dec9", hex] => Some(prop_dec9(&unhex(hex))),
         ["deccurves", hex] => Some(prop_deccurves(&unhex(hex))),
+        ["defaults"] => Some(prop_defaults()),
         ["c06", hexes @ ..] => Some(prop_c06_raw(&hexes.iter().map(|h| unhex(h)).collect::<Vec<_>>())),
         _ => None,
     }
